@@ -53,7 +53,9 @@ CLAIMED['C14'] = dict(category='proof',
    text='Post-conditions of the real pressure-drop methods for all real inputs: friction and gravity increments equal '
         'the closed forms f dz rho v^2/(2 De) and rho g dz, are non-negative and additive in dz (hence step-size '
         'independent), the region total is the sum of its parts and only grows, a spacer grid anywhere in two consecutive '
-        'steps (za, zb], (zb, zc] - including exactly on the plane zb - is charged exactly once, and the assembly total '
+        'steps (za, zb], (zb, zc] - including exactly on the plane zb - is charged exactly once; two grids listed in either order are '
+        'each charged once by the real calculate_pressure_drop - also when both lie in one step, at one position, or on the lower '
+        'bound of the bundle in its first step; and the assembly total '
         'accumulates a finished region exactly once across a region change.',
    note=_ASSUME + 'Friction factor, velocity and density are the static values held by the region (positive atoms).',
    technique='contract-based deductive verification (proxy execution, path enumeration over the grid comparisons, exact normaliser)')
@@ -169,7 +171,10 @@ CLAIMED['C12'] = dict(category='proof',
         'the right limits; subchannel mass flows are area share x split. Bounded: all 120 accepted correlation triples x 7 '
         'Reynolds numbers incl. regime boundaries x spacer grid on/off evaluate without exception, conserve mass, give '
         'positive finite friction and non-negative finite mixing parameters.',
-   note=_ASSUME + 'Float exponents are read as exact ratios (59/91 etc.). The total.evaluates[*] obligations are BOUNDED '
+   note=_ASSUME + 'Float exponents are read as exact ratios (59/91 etc.). Known finding (open): with a spacer-grid correlation the '
+        'CTD split iteration does not converge within about 5 % of the laminar boundary and set-up aborts (StopIteration); '
+        'listed by its six failing points of the bounded family total.grid_split_near_laminar_boundary[*]. '
+        'The total.evaluates[*] and total.grid_split_near_laminar_boundary[*] obligations are BOUNDED '
         'run-time contracts; SE2 symbolically and convergence of the iteration are not decided.',
    technique='contract-based deductive verification (proxy execution, generalised-monomial normaliser with rational exponents, loop cut from source) + bounded run-time contracts')
 CLAIMED['C10'] = dict(category='proof',
